@@ -16,12 +16,19 @@ func (server *RunningJob) AwaitStop() {
 func SpawnJob(start func(), shutdown func()) RunningJob {
 	stop := make(chan struct{})
 	closed := make(chan struct{})
+	started := make(chan struct{})
 	go func() {
 		<-stop
 		shutdown()
+		// start may still be on its way up (e.g. a listener bound but not yet
+		// serving): the job is only closed once start has returned as well.
+		<-started
 		close(closed)
 	}()
-	go start()
+	go func() {
+		defer close(started)
+		start()
+	}()
 	return RunningJob{stop: stop, closed: closed}
 }
 
